@@ -234,6 +234,32 @@ def rule_A_EFF(ctx, repo, cache, must_read_only=False):
                     ctx.fail('A-EFF', mq(ci, op), 'remover never removes', '%s.%s has no path that removes anything from the archive\'s store' % (ci.label, op), wh(ci, fi.node.lineno))
                 elif not rd:
                     ctx.fail('A-EFF', mq(ci, op), 'pop never reads', '%s.%s never reads the store: it cannot return the stored value' % (ci.label, op), wh(ci, fi.node.lineno))
+            if op in REMOVERS and op != 'popkeys':      # popkeys is a loop over pop (zero iterations for an empty key list)
+                # A-REMOVE: a failure-free path that read the store and neither removes nor rewrites must have established that there was
+                # nothing to remove - by a membership test on what was read, or by the KeyError of the lookup.  Comparing the popped value with
+                # the default (`res is default`) is not such evidence: a stored value may be that very object.
+                for o in normal:
+                    if not clean_path(o):
+                        continue
+                    effs = [c for e, c in effects(o)]
+                    if 'read' not in effs or any(c in ('remove', 'clearall', 'write', 'rename') for c in effs):
+                        continue
+                    absent = any(e.kind == 'CAUGHT' and e.args and e.args[0] in (C('KeyError'), C('StopIteration'), C('IndexError')) for e in o.st.events)
+                    for t, b in o.st.facts.get('truth', {}).items():
+                        if t[0] == 'cmp' and ((t[1] == 'in' and b is False) or (t[1] == 'not in' and b is True)):
+                            absent = True
+                        if t[0] == 'not' and t[1][0] == 'cmp' and t[1][1] == 'in' and b is True:
+                            absent = True
+                        if t[0] == 'ev' and t[1] in ('exists', 'read', 'list') and b is False:
+                            absent = True       # nothing stored / empty listing
+                    if o.kind == RETURN and o.val is not None and not contains_term(o.val, lambda x: x[0] == 'ev' and x[1] in ('read', 'sqlres')):
+                        absent = absent or True      # returns a default / constant that does not come from the store
+                    ctx.ob('A-REMOVE', None, absent)
+                    if not absent:
+                        ctx.fail('A-REMOVE', mq(ci, op), 'found entry returned but not removed',
+                                 '%s.%s has a failure-free path that returns a value taken from the store without removing it or rewriting the store, and without having '
+                                 'established that the key was absent: the entry stays although dict.%s removes it' % (ci.label, op, op), wh(ci, o.line), render_path(o))
+                ctx.ob('A-REMOVE', '%s.%s' % (ci.label, op))
             if op == 'clear':
                 has = any(any(c == 'clearall' or (c == 'rename' and is_whole_file(ci)) for e, c in effects(o)) for o in normal)
                 if not has:
@@ -424,8 +450,8 @@ def init_param_keys(ci):
     return out, params
 
 
-def rule_A_RED_COPY(ctx, repo, cache):
-    for ci in archive_classes(repo, ['dir_archive', 'file_archive', 'hdf_archive[hdf]', 'hdfdir_archive[hdf]']):
+def rule_A_RED_COPY(ctx, repo, cache, parts=('red', 'copy')):
+    for ci in (archive_classes(repo, ['dir_archive', 'file_archive', 'hdf_archive[hdf]', 'hdfdir_archive[hdf]']) if 'red' in parts else []):
         red = ci.methods.get('__reduce__')
         if red is None:
             ctx.ob('A-RED', ci.label, False)
@@ -456,7 +482,7 @@ def rule_A_RED_COPY(ctx, repo, cache):
             if not ok:
                 ctx.fail('A-RED', mq(ci, '__reduce__'), '__reduce__: ' + why[:60], '%s.__reduce__ %s' % (ci.label, why), wh(ci, red.node.lineno))
     # copy(name) builds the same class with **self.state
-    for ci in archive_classes(repo, PERSISTENT):
+    for ci in (archive_classes(repo, PERSISTENT) if 'copy' in parts else []):
         fi, outs, eng = cache.outs(ci, 'copy')
         if fi is None:
             continue
@@ -471,6 +497,33 @@ def rule_A_RED_COPY(ctx, repo, cache):
                 ok = any(k[0] == 'dstar' and contains_term(k[1], lambda t: t[0] == 'attr' and t[1] == STATE and t[2] == 'copy' or t == ('attr', SELF, 'state') or t == STATE)
                          for k in kws)
                 why = 'does not forward **self.state to the new archive (settings such as serialized/protocol would be lost)'
+                if ok:
+                    # a filtered view of the state may only leave out what the call passes explicitly (the new location)
+                    explicit = set(k[1] for k in kws if k[0] == 'kw') | set(['id'])
+                    for k in kws:
+                        if k[0] != 'dstar':
+                            continue
+                        for t in subterms(k[1]):
+                            if t[0] == 'comp' and len(t) > 3:
+                                dropped = set()
+                                known = True
+                                for cond in t[3][1:]:
+                                    c = cond
+                                    neg = False
+                                    if c[0] == 'not':
+                                        c, neg = c[1], True
+                                    if c[0] == 'cmp' and ((c[1] == 'not in' and not neg) or (c[1] == 'in' and neg)) and c[3][0] in ('tuple', 'list', 'set') \
+                                            and all(is_const(x) for x in c[3][1]):
+                                        dropped |= set(x[1] for x in c[3][1])
+                                    elif c[0] == 'cmp' and ((c[1] == '!=' and not neg) or (c[1] == '==' and neg)) and is_const(c[3]):
+                                        dropped.add(c[3][1])
+                                    else:
+                                        known = False
+                                lost = sorted(str(x) for x in dropped - explicit)
+                                if lost or not known:
+                                    ok = False
+                                    why = 'forwards only part of its settings to the new archive (%s left out): the copy is opened with different settings and cannot read what was copied' % (
+                                        ', '.join(lost) if lost else 'an unrecognised filter')
             ctx.ob('A-COPY', ci.label, ok)
             if not ok:
                 ctx.fail('A-COPY', mq(ci, 'copy'), 'copy: ' + why[:50], '%s.copy %s' % (ci.label, why), wh(ci, fi.node.lineno), render_path(o))
@@ -724,6 +777,30 @@ def rule_A_PUB(ctx, repo, cache):
                     inplace = (o, e)
                 if e.kind == 'COPY' and len(e.args) > 1 and final is not None and e.args[1] == final:
                     inplace = (o, e)
+        # the staging file is complete (closed, hence flushed) before it is renamed over the live object
+        early = None
+        for o in outs:
+            evs = o.st.events
+            for i, e in enumerate(evs):
+                if e.kind != 'RENAME' or not on_self_store(e.args[1]):
+                    continue
+                src = e.args[0]
+                # a directory rename publishes the files inside it: any of them still open counts
+                inside = lambda p: p == src or contains_term(p, lambda t: t == src)
+                opened = [j for j, x in enumerate(evs[:i]) if x.kind == 'OPENW' and x.args and inside(x.args[0])]
+                for j in opened:
+                    p = evs[j].args[0]
+                    closed_before = any(x.kind == 'FCLOSE' and x.args[0] == p for x in evs[j:i])
+                    closed_after = any(x.kind == 'FCLOSE' and x.args[0] == p for x in evs[i:])
+                    if not closed_before and closed_after and early is None:
+                        early = (o, e, evs[j])
+        ctx.ob('A-PUB', '%s.%s staging closed before publication' % (lab, routine), early is None)
+        if early is not None:
+            o, e, op = early
+            ctx.fail('A-PUB', mq(ci, routine), 'published before the staging file is closed',
+                     '%s.%s renames the staging copy into place (%s) while the file opened at %s is still open: buffered data is written only at close, '
+                     'so a kill right after the rename leaves a truncated live object (and a concurrent reader can see it)' % (lab, routine, wh(ci, e.line), wh(ci, op.line)),
+                     wh(ci, e.line), render_path(o))
         ctx.ob('A-PUB', '%s.%s no in-place write' % (lab, routine), inplace is None)
         if inplace is not None:
             o, e = inplace
